@@ -23,8 +23,9 @@ VARIABLES I, S, D, R,      \* configuration chosen in Init: [Mods -> Nat] each
           lastMain, lastSlow, ts,
           toPoll,          \* remaining entries of the slow round (sequence of <<m, p>>)
           passes,          \* how often the slow loop went round in this turn (<= 2)
-          mainDl, slowDl   \* deadlines derived from the bounds of the property
-vars == <<I, S, D, R, now, phase, mi, lastMain, lastSlow, ts, toPoll, passes, mainDl, slowDl>>
+          mainDl, slowDl,  \* deadlines derived from the bounds of the property
+          t0, nMain        \* end of the start-up round; [Mods -> number of main polls since then]
+vars == <<I, S, D, R, now, phase, mi, lastMain, lastSlow, ts, toPoll, passes, mainDl, slowDl, t0, nMain>>
 
 Sum(f) == LET RECURSIVE sm(_)
               sm(n) == IF n = 0 THEN 0 ELSE f[n] + sm(n - 1)
@@ -41,6 +42,7 @@ Init == /\ I \in [Mods -> Intervals] /\ S \in [Mods -> Slows] /\ D \in [Mods -> 
         /\ lastMain = [m \in Mods |-> 0] /\ lastSlow = [m \in Mods |-> 0]
         /\ ts = [x \in MP |-> 0] /\ toPoll = <<>> /\ passes = 0
         /\ mainDl = [m \in Mods |-> 0] /\ slowDl = [x \in MP |-> 0]
+        /\ t0 = 0 /\ nMain = [m \in Mods |-> 0]
 
 (* first round: every polled parameter is read once, then the started callback fires *)
 SeqOfMP == LET RECURSIVE build(_)
@@ -53,8 +55,9 @@ Startup ==
         /\ ts' = [x \in MP |-> now + total]          \* (all stamps within the round; the latest is an upper bound)
         /\ mainDl' = [m \in Mods |-> now + total + I[m] + FullTurn]
         /\ slowDl' = [x \in MP |-> now + total + SlowBound(x[1])]
+        /\ t0' = now + total
    /\ phase' = "top"
-   /\ UNCHANGED <<I, S, D, R, mi, lastMain, lastSlow, toPoll, passes>>
+   /\ UNCHANGED <<I, S, D, R, mi, lastMain, lastSlow, toPoll, passes, nMain>>
 
 MinOf(T) == CHOOSE x \in T : \A y \in T : x <= y
 Top ==
@@ -65,19 +68,21 @@ Top ==
       THEN /\ now' = next /\ UNCHANGED <<phase, mi>>            \* nothing to do: sleep until the earliest due time
       ELSE /\ phase' = "main" /\ mi' = 1 /\ UNCHANGED now
    /\ passes' = 0
-   /\ UNCHANGED <<I, S, D, R, lastMain, lastSlow, ts, toPoll, mainDl, slowDl>>
+   /\ UNCHANGED <<I, S, D, R, lastMain, lastSlow, ts, toPoll, mainDl, slowDl, t0, nMain>>
 
 Main ==
    /\ phase = "main"
    /\ IF mi > NMods
-      THEN /\ phase' = "slow" /\ UNCHANGED <<now, mi, lastMain, mainDl>>
+      THEN /\ phase' = "slow" /\ UNCHANGED <<now, mi, lastMain, mainDl, nMain>>
       ELSE /\ mi' = mi + 1 /\ UNCHANGED phase
            /\ IF now >= lastMain[mi] + I[mi]
               THEN /\ lastMain' = [lastMain EXCEPT ![mi] = Floor(now, I[mi])]
                    /\ mainDl' = [mainDl EXCEPT ![mi] = now + I[mi] + FullTurn]
                    /\ now' = now + D[mi]
-              ELSE UNCHANGED <<now, lastMain, mainDl>>
-   /\ UNCHANGED <<I, S, D, R, lastSlow, ts, toPoll, passes, slowDl>>
+                   /\ nMain' = [nMain EXCEPT ![mi] = @ + 1]
+                   /\ Assert(nMain'[mi] * I[mi] <= (now - t0) + 2 * I[mi], "NotFaster: more main polls than elapsed / interval + 2")
+              ELSE UNCHANGED <<now, lastMain, mainDl, nMain>>
+   /\ UNCHANGED <<I, S, D, R, lastSlow, ts, toPoll, passes, slowDl, t0>>
 
 (* one due slow poll per turn; an entry refreshed less than half a slow interval ago is skipped *)
 Slow ==
@@ -100,7 +105,7 @@ Slow ==
            /\ passes' = passes + 1
            /\ phase' = (IF due = {} \/ passes >= 1 THEN "top" ELSE "slow")
            /\ UNCHANGED <<now, ts, slowDl>>
-   /\ UNCHANGED <<I, S, D, R, mi, lastMain, mainDl>>
+   /\ UNCHANGED <<I, S, D, R, mi, lastMain, mainDl, t0, nMain>>
 
 Next == (now <= Horizon) /\ (Startup \/ Top \/ Main \/ Slow)
 Spec == Init /\ [][Next]_vars
